@@ -19,7 +19,8 @@ class Scheduler:
         self.waiting = {}        # tid -> point name
         self.granted = None
         self.finished = {}
-        self.lock_holder = None
+        self.lock_holder = {}    # lock file -> tid holding it (FileLock is per entry file)
+        self.wants = {}          # tid -> lock file it is about to acquire
         self.tls = threading.local()
 
     def point(self, name):
@@ -36,7 +37,8 @@ class Scheduler:
 
     def enabled(self):
         with self.cv:
-            return sorted(t for t, p in self.waiting.items() if not (p == 'acquire' and self.lock_holder is not None))
+            return sorted(t for t, p in self.waiting.items()
+                          if not (p == 'acquire' and self.lock_holder.get(self.wants.get(t)) is not None))
 
     def grant(self, tid):
         with self.cv:
@@ -54,17 +56,19 @@ class Scheduler:
 
 
 class CoopLock:
-    def __init__(self, sched):
-        self.sched = sched
+    def __init__(self, sched, name=''):
+        self.sched, self.name = sched, str(name)
 
     def __enter__(self):
+        tid = getattr(self.sched.tls, 'tid', None)
+        self.sched.wants[tid] = self.name
         self.sched.point('acquire')
-        self.sched.lock_holder = getattr(self.sched.tls, 'tid', None)
+        self.sched.lock_holder[self.name] = tid
         return self
 
     def __exit__(self, *a):
         self.sched.point('release')
-        self.sched.lock_holder = None
+        self.sched.lock_holder[self.name] = None
         return False
 
 
@@ -120,7 +124,7 @@ def run_schedule(case):
                 t.write_text(json.dumps({'key': k, 'value': INIT_VALUE}))
         elif case.get('fresh_dir'):
             target.parent.rmdir()          # a key that was never used: its shard directory does not exist yet
-        tc.FileLock = lambda *a, **k: CoopLock(sched)
+        tc.FileLock = lambda name='', *a, **k: CoopLock(sched, name)
 
         def pmkdir(self, *a, **k):
             if self == target.parent and getattr(sched.tls, 'tid', None) is not None:
